@@ -39,6 +39,16 @@ var (
 
 func oddSubBlocks(size [3]int) bool { return (size[0]/8)*(size[1]/8)*(size[2]/8)%2 == 1 }
 
+// errKey maps the refusal to encode a result of >= 2 labels in a block with an odd number of sub-blocks (all
+// edges = 8 mod 16, e.g. 24x24x24; the uint32 index table then starts at an offset = 2 mod 4) to the key that
+// C09 reports for the same defect; every other error keeps the operation's own key.
+func errKey(size [3]int, err error, dflt string) string {
+	if err != nil && oddSubBlocks(size) && strings.Contains(err.Error(), "alignment") {
+		return "encode:odd-subblock-count-misaligned-index-table"
+	}
+	return dflt
+}
+
 func main() {
 	p = probe.New()
 	// DownresFast and the dvid logger print to stdout; keep the protocol stream clean
@@ -49,10 +59,10 @@ func main() {
 	kinds := lg.Kinds()
 	rot := int(p.Seed % 1000)
 
-	// thorough is sized for ~10 CPU-minutes in the plain build so that the tier stays inside its budget on a busy machine
-	nTable, nSplit, nDown := p.N(250, 7000), p.N(250, 7000), p.N(512, 5120)
+	// thorough is sized for ~15 CPU-minutes in the plain build so that the tier stays inside its budget on a busy machine
+	nTable, nSplit, nDown := p.N(250, 10000), p.N(250, 10000), p.N(512, 7680)
 	if p.Flavour != "" {
-		nTable, nSplit, nDown = p.N(70, 1200), p.N(70, 1200), p.N(128, 1024)
+		nTable, nSplit, nDown = p.N(70, 1800), p.N(70, 1800), p.N(128, 1536)
 	}
 	var cases []func(c *lg.Case)
 	for i := 0; i < nTable; i++ {
@@ -436,7 +446,7 @@ func tableCase(c *lg.Case, size [3]int, kind string) {
 			return
 		}
 		if err != nil || nb == nil {
-			k.viol(op.name+":error", "%s failed on a legal input: %v", op.name, err)
+			k.viol(errKey(size, err, op.name+":error"), "%s failed on a legal input: %v", op.name, err)
 			return
 		}
 		if op.check != nil {
@@ -447,7 +457,7 @@ func tableCase(c *lg.Case, size [3]int, kind string) {
 		}
 		cur, curB, fresh = op.exp, nb, false
 	}
-	if c.CI < 2 && p.Flavour == "" {
+	if c.CI < 1 && p.Flavour == "" {
 		p.Sample(map[string]interface{}{"type": "table", "size": lg.SizeStr(size), "kind": kind, "ops": ops})
 	}
 	p.Count("table_sequences", 1)
@@ -599,7 +609,7 @@ func splitCase(c *lg.Case, size [3]int, kind string, i int) {
 	k := &checker{c: c, size: size, base: map[string]interface{}{"type": "split", "size": size, "kind": kind, "array_hash": g.Hash()}}
 	cur, curB := g.A, b
 	// one third of the cases first edit the label table so that the split meets duplicate / zeroed slots
-	if i%3 == 2 {
+	if r.Intn(3) == 0 {
 		op := genTableOp(r, cur, r.Intn(3), g.NLabels <= 64)
 		nb, err := op.apply(curB)
 		if err != nil || nb == nil {
@@ -624,7 +634,7 @@ func splitCase(c *lg.Case, size [3]int, kind string, i int) {
 	} else {
 		target = fresh() // absent target
 	}
-	mode := maskModes[(i/2)%len(maskModes)]
+	mode := maskModes[(i/6)%len(maskModes)]
 	mask := genMask(r, size, cur, target, mode)
 	runs := maskRuns(r, size, mask)
 	rles := toRLEs(runs, off)
@@ -694,7 +704,11 @@ func splitCase(c *lg.Case, size [3]int, kind string, i int) {
 			return
 		}
 		if err != nil {
-			bad("error", "failed on a legal input (new label %d): %v", nl, err)
+			if ek := errKey(size, err, ""); ek != "" {
+				k.viol(ek, name+" cannot encode its result (new label %d): %v", nl, err)
+			} else {
+				bad("error", "failed on a legal input (new label %d): %v", nl, err)
+			}
 			return
 		}
 		if wantKept+wantSplit == 0 {
@@ -757,7 +771,7 @@ func splitCase(c *lg.Case, size [3]int, kind string, i int) {
 			return
 		}
 		if err != nil || res == nil {
-			k.viol("supervoxel:error", "SplitSupervoxel failed on a legal input: %v", err)
+			k.viol(errKey(size, err, "supervoxel:error"), "SplitSupervoxel failed on a legal input: %v", err)
 			return
 		}
 		if kept != wantKept || split != wantSplit {
@@ -789,7 +803,7 @@ func splitCase(c *lg.Case, size [3]int, kind string, i int) {
 			return
 		}
 		if err != nil || res == nil {
-			k.viol("supervoxels:error", "SplitSupervoxels failed on a legal input: %v", err)
+			k.viol(errKey(size, err, "supervoxels:error"), "SplitSupervoxels failed on a legal input: %v", err)
 			return
 		}
 		var fl []uint64
@@ -842,7 +856,7 @@ func splitCase(c *lg.Case, size [3]int, kind string, i int) {
 			return
 		}
 		if err != nil {
-			k.viol(variant+":error", "%s failed on a legal input: %v", fn, err)
+			k.viol(errKey(size, err, variant+":error"), "%s failed on a legal input: %v", fn, err)
 			return
 		}
 		// reported counts against true counts
@@ -898,7 +912,7 @@ func splitCase(c *lg.Case, size [3]int, kind string, i int) {
 		sort.Slice(fl, func(i, j int) bool { return fl[i] < fl[j] })
 		k.result("withstats", res, exp, curB, cur, fl)
 	}
-	if i < 6 && p.Flavour == "" && i%3 == 0 {
+	if i == 7 && p.Flavour == "" {
 		p.Sample(map[string]interface{}{"type": "split", "desc": k.desc})
 	}
 }
@@ -1048,7 +1062,7 @@ func downresCase(c *lg.Case, size [3]int, pattern int, mixed bool, j int) {
 	p.Seen("octant_pattern_x_mode", fmt.Sprintf("%08b/%s", pattern, mode))
 	p.Seen("ops", "downres")
 	p.Count("op_downres", 1)
-	if j < 2 && p.Flavour == "" {
+	if (j == 255 || j == 256+0x5a) && p.Flavour == "" {
 		p.Sample(map[string]interface{}{"type": "downres", "desc": k.desc})
 	}
 
